@@ -538,7 +538,12 @@ class InterpreterAnalyzer(ASTTemplate):
         operand_id_collision = False
         if self.is_from_regular_aggregation:
             if self.regular_aggregation_dataset is None:
-                raise SemanticError("1-1-6-10")
+                raise SemanticError(
+                    "1-1-6-10",
+                    op=node.op,
+                    operand=getattr(node.operand, "value", None),
+                    dataset_name=None,
+                )
             if node.operand is None:
                 operand = self.regular_aggregation_dataset
             else:
